@@ -24,8 +24,9 @@ CLAUSES = {1: "run_raised", 2: "slices_differ_from_snapshots", 3: "node_paths", 
 TRUSTED = [
     "correspondence harness: harness/props/c03.py generators and literal emitters, harness/drivers/c03.py "
     "(canonical form of the returned DataTree), probes/verif_probes_c03.py (writer models, the last-running recorder)",
-    "modelled, not verified: xarray merge/expand_dims/DataTree (outer join = sorted union of the time labels, NaN fill "
-    "promotes uint8/16 to float32 and uint32/64 to float64, astype back), numpy casts, np.allclose on exact small integers",
+    "modelled, not verified: xarray concat/expand_dims/DataTree (concatenation along time appends the slice of the step and "
+    "keeps integer dtypes; astype to the dtype of the current image), numpy casts and in-place arithmetic, np.allclose on "
+    "exact small integers, which numpy/xarray operations copy a buffer (np.array, astype, .copy) and which do not",
     "time labels on the 1/8 s grid (float64 start + t exact); array values are integers exactly representable in their dtype",
 ]
 
@@ -262,6 +263,17 @@ def fixed_cases() -> list:
                                    dict(group="charge_measurement", name="a4", actions=[w(b, dt, ps(60), waves, "assign")]),
                                    dict(group="readout_electronics", name="a5", actions=[w(b, dt, ps(300), waves, "iadd", 2)]),
                                    L()]))
+    # round-1 findings repaired in round 2, kept so that a regression is reported again: the very first model
+    # initialises a bucket with zeros (it used to be compared with zeros: not recorded) ...
+    cs.append(dict(rows=1, cols=1, start=0, times=[8, 16], nondestr=False, hier=False, debug=True,
+                   models=[dict(group="charge_measurement", name="z0", actions=[w("signal", "float64", [0, 0])]),
+                           dict(group="readout_electronics", name="wi", actions=[w("image", "uint16", [0, 4])]), L()]))
+    # ... and the first model of a later step rewrites a bucket with the values of the previous step (it used to
+    # be compared with the end of the previous step: not recorded)
+    for nd in (False, True):
+        cs.append(dict(rows=1, cols=2, start=0, times=[8, 16, 24], nondestr=nd, hier=False, debug=True,
+                       models=[dict(group="photon_collection", name="wp", actions=[w("photon", "float64", [5, 5, 5])]),
+                               dict(group="charge_collection", name="wx", actions=[w("pixel", "float64", [3, 3, 9])]), L()]))
     return cs
 
 
@@ -568,8 +580,10 @@ def nontrivial(c) -> bool:
 def run(ctx: Ctx):
     ctx.trusted += TRUSTED
     ctx.assumptions += [
-        "strictly increasing readout times (what Readout accepts); labels on a dyadic grid",
-        "C03_slices: image initialised in no step or in every step with one unsigned dtype and values below 2^8/2^16/2^32/2^53",
+        "labels on a dyadic grid (1/8 s); the driver uses strictly increasing readout times (what Readout accepts), the "
+        "theorems need no ordering",
+        "C03_slices: image initialised in no step or in every step with one dtype (any values)",
+        "C03_slices / C03_debug_nodes: every to_xarray copies the container's buffer (C03_readouts_copy, table in Model/Result.v)",
         "buckets initialised in some steps only are outside the statement (xarray NaN-fills them): recorded, not judged",
         "debug: values small enough that np.allclose on integers is equality (|v| < 1e5)",
     ]
@@ -703,22 +717,24 @@ def replay(ctx: Ctx, rp: dict) -> int:
 
 META = dict(
     level_text=(
-        "Coq theorems, for ALL programs (arbitrary model functions of the step index and the detector), all strictly "
-        "increasing schedules, both layouts, debug on/off, over an executable model of the result assembly "
-        "(per-step snapshot labelled start + t_i, merge along time keyed by label, float promotion of the merge and "
-        "restoration of the image dtype, layouts, debug capture): the merge is lossless iff the labels are distinct; the "
-        "result holds exactly one slice per readout, in order, equal to the detector's state at the end of that step; the "
-        "image keeps its unsigned dtype; layouts agree; scene/data pass through; debug does not alter the result and each "
-        "non-first model's node holds exactly the buckets it changed. Two full statements are refuted with witnesses (uint64 "
-        "images above 2^53 with >= 2 readouts; debug attribution for the first model of a later step). That pyxel's code "
-        "behaves like the model is established by correspondence (testing): the DataTree returned by pyxel.run_mode for "
-        "generated writer pipelines is compared inside Coq with the model's prediction and judged against the "
-        "specification using the snapshots of a last-running recorder probe."),
+        "Coq theorems, for ALL programs (arbitrary model functions of the step index and the detector, changing containers "
+        "in place or re-assigning them), ALL schedules, both layouts, debug on/off, over an executable model of the result "
+        "assembly (per-step read-out labelled start + t_i, concatenation along time, restoration of the image dtype, "
+        "layouts, debug capture before/after each model, read-outs that copy or share the container's buffer): the "
+        "concatenation loses and invents no slice; the result holds exactly one slice per readout, in order, labelled "
+        "start + t_i and equal to the detector's state at the end of that step -- every uint64 image value included; the "
+        "image keeps its unsigned dtype; layouts agree; scene/data pass through; debug does not alter the result and the node "
+        "of EVERY model (the first of a step included) holds exactly the buckets it changed, provided every read-out copies "
+        "(proved of the table of the code; witnesses show each copy is needed). That pyxel's code behaves like the model is "
+        "established by correspondence (testing): the DataTree returned by pyxel.run_mode for generated writer pipelines "
+        "(in-place and re-assigning writers of all six container kinds, several per step) is compared inside Coq with the "
+        "model's prediction and judged against the specification using the snapshots of a last-running recorder probe and "
+        "the before/after records of every model."),
     level_note=(
-        "Trusted: Coq kernel + vm_compute; the correspondence harness, driver and probes; xarray merge / DataTree, numpy "
-        "casts and np.allclose are modelled, not verified. Time labels are integers on a 1/8 s grid and array values are "
-        "integers exactly representable in their dtype. Buckets initialised in some steps only (NaN-filled by xarray) and "
-        "the wavelength coordinate values are not judged."),
+        "Trusted: Coq kernel + vm_compute; the correspondence harness, driver and probes; xarray concat / DataTree, numpy "
+        "casts, in-place arithmetic and np.allclose are modelled, not verified. Time labels are integers on a 1/8 s grid and "
+        "array values are integers exactly representable in their dtype. Buckets initialised in some steps only (NaN-filled by "
+        "xarray) and the wavelength coordinate values are not judged."),
     technique="Coq proof over an executable result-assembly model + in-Coq correspondence/specification evaluation",
     design_ref="DESIGN.md section 6, C03",
 )
